@@ -24,7 +24,7 @@ theorem conserved_step (s : BState) (st : BStep) (h : Conserved s) : Conserved (
       simp [List.append_assoc]
     rw [this]
     exact List.Perm.append_right xs h
-  | register c => simp only [bstep]; split_ifs <;> exact h
+  | register => simp only [bstep]; exact h
   | retry c =>
     simp only [bstep]
     split_ifs
@@ -77,16 +77,166 @@ theorem push_wakes_longest_waiters (s : BState) (xs : List Nat) :
   simp [bstep, wake]
 
 /-- registration appends: a client that registers later never overtakes one that registered earlier -/
-theorem register_appends (s : BState) (c : Nat) (h1 : c ∉ s.queue) (h2 : c ∉ s.woken) :
-    (bstep s (.register c)).queue = s.queue ++ [c] := by
-  simp [bstep, h1, h2]
+theorem register_appends (s : BState) :
+    (bstep s .register).queue = s.queue ++ [s.nextId] := by
+  simp [bstep]
+
+theorem mem_insertAge (c y : Nat) (l : List Nat) : y ∈ insertAge c l ↔ y = c ∨ y ∈ l := by
+  induction l with
+  | nil => simp [insertAge]
+  | cons x r ih =>
+    unfold insertAge
+    split_ifs
+    · simp
+    · simp only [List.mem_cons, ih]
+      constructor
+      · rintro (h | h | h)
+        · exact Or.inr (Or.inl h)
+        · exact Or.inl h
+        · exact Or.inr (Or.inr h)
+      · rintro (h | h | h)
+        · exact Or.inr (Or.inl h)
+        · exact Or.inl h
+        · exact Or.inr (Or.inr h)
+
+theorem pairwise_insertAge (c : Nat) (l : List Nat) (hs : l.Pairwise (· < ·)) (hc : c ∉ l) :
+    (insertAge c l).Pairwise (· < ·) := by
+  induction l with
+  | nil => simp [insertAge]
+  | cons x r ih =>
+    have hx : c ≠ x := fun h => hc (by simp [h])
+    have hr : c ∉ r := fun h => hc (by simp [h])
+    have hsr := (List.pairwise_cons.mp hs).2
+    have hxr := (List.pairwise_cons.mp hs).1
+    unfold insertAge
+    split_ifs with hlt
+    · refine List.pairwise_cons.mpr ⟨?_, hs⟩
+      intro y hy
+      rcases List.mem_cons.mp hy with h | h
+      · omega
+      · have := hxr y h; omega
+    · refine List.pairwise_cons.mpr ⟨?_, ih hsr hr⟩
+      intro y hy
+      rcases (mem_insertAge c y r).mp hy with h | h
+      · omega
+      · exact hxr y h
+
+/-- the bookkeeping invariant: the wait queue is ordered by age (longest-blocked client first), every
+    known client is older than the next id, and no client is queued and woken at once or woken twice -/
+structure QInv (s : BState) : Prop where
+  sorted : s.queue.Pairwise (· < ·)
+  qlt : ∀ c ∈ s.queue, c < s.nextId
+  wlt : ∀ c ∈ s.woken, c < s.nextId
+  disj : ∀ c ∈ s.woken, c ∉ s.queue
+  wnodup : s.woken.Nodup
+
+theorem qinv_init : QInv {} := by
+  constructor <;> simp
+
+theorem qinv_step (s : BState) (st : BStep) (h : QInv s) : QInv (bstep s st) := by
+  cases st with
+  | push xs =>
+    simp only [bstep, wake]
+    have hsub : ∀ c, c ∈ s.queue.take xs.length → c ∈ s.queue := fun c hc => List.mem_of_mem_take hc
+    have hsplit := List.take_append_drop xs.length s.queue
+    have hpw : (s.queue.take xs.length ++ s.queue.drop xs.length).Pairwise (· < ·) := by rw [hsplit]; exact h.sorted
+    constructor
+    · exact (List.pairwise_append.mp hpw).2.1
+    · intro c hc; exact h.qlt c (List.mem_of_mem_drop hc)
+    · intro c hc
+      rcases List.mem_append.mp hc with hc | hc
+      · exact h.wlt c hc
+      · exact h.qlt c (hsub c hc)
+    · intro c hc hd
+      rcases List.mem_append.mp hc with hc | hc
+      · exact h.disj c hc (List.mem_of_mem_drop hd)
+      · have := (List.pairwise_append.mp hpw).2.2 c hc c hd; omega
+    · refine List.nodup_append.mpr ⟨h.wnodup, ?_, ?_⟩
+      · exact ((List.pairwise_append.mp hpw).1).imp (fun hlt => Nat.ne_of_lt hlt)
+      · intro a ha b hb hab
+        subst hab
+        exact h.disj a ha (hsub a hb)
+  | register =>
+    simp only [bstep]
+    constructor <;> dsimp only
+    · refine List.pairwise_append.mpr ⟨h.sorted, by simp, ?_⟩
+      intro a ha b hb
+      have := h.qlt a ha
+      simp at hb; omega
+    · intro c hc
+      rcases List.mem_append.mp hc with hc | hc
+      · have := h.qlt c hc; omega
+      · simp at hc; omega
+    · intro c hc; have := h.wlt c hc; omega
+    · intro c hc hd
+      rcases List.mem_append.mp hd with hd | hd
+      · exact h.disj c hc hd
+      · simp at hd; have := h.wlt c hc; omega
+    · exact h.wnodup
+  | retry c =>
+    simp only [bstep]
+    split_ifs with hw
+    · cases hl : s.list with
+      | cons x r =>
+        simp only
+        constructor
+        · exact h.sorted
+        · exact h.qlt
+        · intro d hd; exact h.wlt d (List.mem_of_mem_erase hd)
+        · intro d hd; exact h.disj d (List.mem_of_mem_erase hd)
+        · exact h.wnodup.erase c
+      | nil =>
+        simp only
+        constructor
+        · exact pairwise_insertAge c s.queue h.sorted (h.disj c hw)
+        · intro d hd
+          rcases (mem_insertAge c d s.queue).mp hd with hd | hd
+          · subst hd; exact h.wlt d hw
+          · exact h.qlt d hd
+        · intro d hd; exact h.wlt d (List.mem_of_mem_erase hd)
+        · intro d hd hq
+          rcases (mem_insertAge c d s.queue).mp hq with hq | hq
+          · subst hq
+            exact (List.Nodup.mem_erase_iff h.wnodup).mp hd |>.1 rfl
+          · exact h.disj d (List.mem_of_mem_erase hd) hq
+        · exact h.wnodup.erase c
+    · exact h
+  | steal =>
+    simp only [bstep]
+    cases hl : s.list with
+    | nil => exact h
+    | cons x r => exact ⟨h.sorted, h.qlt, h.wlt, h.disj, h.wnodup⟩
+  | leave c =>
+    simp only [bstep]
+    constructor
+    · exact h.sorted.sublist (List.erase_sublist)
+    · intro d hd; exact h.qlt d (List.mem_of_mem_erase hd)
+    · intro d hd; exact h.wlt d (List.mem_of_mem_erase hd)
+    · intro d hd hq; exact h.disj d (List.mem_of_mem_erase hd) (List.mem_of_mem_erase hq)
+    · exact h.wnodup.erase c
+
+/-- **The wait queue is always in order of age**, whatever happened before: in every reachable state
+    the head of the queue is the longest-blocked registered client, so `push_wakes_longest_waiters`
+    serves the longest-blocked clients first — also after wake-ups that found nothing (repaired:
+    such a client used to go to the end of the queue). -/
+theorem queue_ordered_by_age (steps : List BStep) : QInv (brun {} steps) := by
+  have : ∀ (s : BState), QInv s → QInv (brun s steps) := by
+    induction steps with
+    | nil => intro s h; exact h
+    | cons st r ih => intro s h; exact ih _ (qinv_step s st h)
+  exact this {} qinv_init
 
 /-- **No stranded waiter (repaired behaviour).** A woken client whose retry finds the list empty is
     back in the wait queue afterwards, so the next push wakes it again. (On the unrepaired code it was
     in no queue: D29.) -/
 theorem failed_retry_reregisters (s : BState) (c : Nat) (hw : c ∈ s.woken) (hl : s.list = []) :
     c ∈ (bstep s (.retry c)).queue := by
-  simp [bstep, hw, hl]
+  simp [bstep, hw, hl, mem_insertAge]
+
+/-- … and ahead of every client that blocked after it -/
+theorem failed_retry_keeps_place (s : BState) (c : Nat) (h : QInv s) :
+    (bstep s (.retry c)).queue.Pairwise (· < ·) :=
+  (qinv_step s (.retry c) h).sorted
 
 /-- … hence a later push of at least as many elements as there are waiters ahead of it wakes it -/
 theorem next_push_wakes_it (s : BState) (c : Nat) (xs : List Nat) (hq : s.queue = [c]) (hx : xs ≠ []) :
@@ -96,5 +246,11 @@ theorem next_push_wakes_it (s : BState) (c : Nat) (xs : List Nat) (hq : s.queue 
   cases xs with
   | nil => exact absurd rfl hx
   | cons y ys => simp
+
+/-- non-vacuity: three clients block, a push wakes the oldest, its element is stolen, it takes its
+    place again ahead of the two younger ones, and the next push serves it first -/
+example :
+    let s := brun {} [.register, .register, .register, .push [7], .steal, .retry 0, .push [8], .retry 0]
+    s.delivered = [(0, 8)] ∧ s.queue = [1, 2] := by decide
 
 end RedisEmu
